@@ -268,6 +268,13 @@ def renamed_placements(ctx, rng, data=None):
                 continue
             ctx.violation(f"C02:renamed-raised-{type(e).__name__}", f"solving a cell placed several times with renamings raised: {str(e)[:70]}", data)
             return
+        mo, Tm, _ = hier.model_psolve(ctx, node, vals, names)
+        if mo != "ok":
+            ctx.disagreement("C02.model.psolve", f"parametric hierarchical model: {mo}", data)
+        elif Tm.size and float(np.max(np.abs(Tm - T))) > 1e-9 * max(1.0, cond):
+            ctx.disagreement("C02.model.psolve", f"parametric hierarchical model (PNet.psolve) differs from solve({dict(a)}) of the code", data)
+        else:
+            ctx.tag("model:psolve")
         err = float(np.max(np.abs(T - Tref))) if T.size else 0.0
         if err > 1e-9 * max(1.0, cond):
             ctx.violation("C02:renamed-placements-differ", f"a cell placed {len(node.children) if node.children[0][0].kind != 'solver' or len(node.children) > 1 else len(node.children[0][0].children)} "
